@@ -267,3 +267,66 @@ func VerifEntsSize(ents []*pb.Entry) uint64 { return uint64(entsSize(ents)) }
 func VerifLimitSize(ents []*pb.Entry, maxSize uint64) []*pb.Entry {
 	return limitSize(ents, entryEncodingSize(maxSize))
 }
+
+// ---------------------------------------------------------------------------
+// Scheduling points of the channel-based Node (node.go).
+
+// Points passed to VerifNodeYield.
+const (
+	// verifLoopTop: the run loop is about to select. propOpen, readyArmed and
+	// advanceArmed say which of the optional cases are enabled in this select.
+	verifLoopTop = iota
+	// verifLoopProposalStepped: the run loop has stepped a proposal and is about
+	// to post its outcome to the proposer.
+	verifLoopProposalStepped
+	// verifProposalHandedOver: a waiting proposer has handed its proposal to the
+	// run loop and is about to wait for the outcome (or for its context).
+	verifProposalHandedOver
+)
+
+const (
+	VerifLoopTop             = verifLoopTop
+	VerifLoopProposalStepped = verifLoopProposalStepped
+	VerifProposalHandedOver  = verifProposalHandedOver
+)
+
+// VerifNodeYield, when non-nil, is called by the goroutines of a Node at the
+// points above. A simulator parks the calling goroutine inside the call and
+// releases it when its schedule says so. It must be set before any Node is
+// started and not changed while Nodes run.
+var VerifNodeYield func(n Node, point int, propOpen, readyArmed, advanceArmed bool)
+
+func verifYield(n *node, point int, propOpen, readyArmed, advanceArmed bool) {
+	if f := VerifNodeYield; f != nil {
+		f(n, point, propOpen, readyArmed, advanceArmed)
+	}
+}
+
+// VerifStartNode is StartNode (peers given) or RestartNode (no peers) whose run
+// loop reports a panic to onPanic instead of taking the process down.
+func VerifStartNode(c *Config, peers []Peer, onPanic func(v any)) (Node, error) {
+	var n *node
+	if len(peers) > 0 {
+		n = setupNode(c, peers)
+	} else {
+		rn, err := NewRawNode(c)
+		if err != nil {
+			return nil, err
+		}
+		nn := newNode(rn)
+		n = &nn
+	}
+	go func() {
+		defer func() {
+			if v := recover(); v != nil {
+				onPanic(v)
+			}
+		}()
+		n.run()
+	}()
+	return n, nil
+}
+
+// VerifNodeRawNode returns the RawNode a Node drives. It may only be read while
+// the Node's run loop is parked.
+func VerifNodeRawNode(n Node) *RawNode { return n.(*node).rn }
